@@ -4,6 +4,7 @@ package main
 
 import (
 	"fmt"
+	"go/constant"
 	"go/token"
 	"sort"
 	"strings"
@@ -302,6 +303,55 @@ func checkC18(c *Check) {
 	// ---------- 4: matcher skeleton ----------
 	checkMatcherSkeleton(c)
 
+	// ---------- 6: what the sets contain ----------
+	// entries are only ever stored as true (nothing "masks" an entry with false: the matcher's directory and
+	// children lookups would still grant it), and the ancestor walk of AddFilePermission never adds the empty name
+	// (every unresolvable path resolves to "", which must stay uncovered)
+	{
+		const fhp = "runner/ptrace/filehandler"
+		var falseStores []string
+		nUpd := 0
+		for _, fn := range p.AllFuncs() {
+			for _, b := range fn.Blocks {
+				for _, in := range b.Instrs {
+					mu, ok := in.(*ssa.MapUpdate)
+					if !ok || !strings.HasSuffix(describe(mu.Map), ".Set") || mu.Value.Type().String() != "bool" {
+						continue
+					}
+					if !strings.Contains(mu.Map.Type().String(), "map[string]bool") {
+						continue
+					}
+					nUpd++
+					if v, isC := constBool(mu.Value); !isC || !v {
+						falseStores = append(falseStores, fn.Name()+"@"+p.Pos(mu.Pos()))
+					}
+				}
+			}
+		}
+		c.Cond(nUpd >= 1 && len(falseStores) == 0, "6/set-contents", fhp+".FileSet.Set:only-true", fhp+"/", fmt.Sprintf("all %d stores into a path set store true", nUpd), "a path set receives a value other than the constant true at "+strings.Join(falseStores, ", ")+": the entry stays reachable through the matcher's other lookup forms, or (with a presence test) counts as a grant")
+		if ap := p.Func(fhp, "FileSets.AddFilePermission"); ap == nil {
+			c.Undecided("6/set-contents", fhp+".AddFilePermission", "-", "function not found")
+		} else {
+			cd := controlDeps(ap)
+			nAdd := 0
+			for _, ci := range callInstrs(ap) {
+				_, callee := calleeOf(ci)
+				if callee == nil || callee.Name() != "Add" || !inLoop(ci.Block()) {
+					continue
+				}
+				nAdd++
+				arg := ci.Common().Args[len(ci.Common().Args)-1]
+				a, _ := condLit(&ssa.BinOp{Op: token.EQL, X: arg, Y: ssa.NewConst(constant.MakeString(""), arg.Type())})
+				g := cd.guardOf(ci.Block())
+				okNE, _, _ := Valid(fImp(g, fNot(fLit(a))))
+				c.Cond(okNE, "6/set-contents", fmt.Sprintf("%s.AddFilePermission:ancestor#%d-non-empty", fhp, nAdd), p.Pos(ci.Pos()), "an ancestor is added only if it is not the empty name",
+					"the ancestor walk adds "+describe(arg)+" without testing it against the empty name: \"\" becomes a statable entry and every path that cannot be resolved (resolved to \"\") is admitted")
+			}
+			c.Cond(nAdd >= 1, "6/set-contents", fhp+".AddFilePermission:walk", p.Pos(ap.Pos()), "ancestor walk found", "no ancestor walk found in AddFilePermission")
+		}
+		c.Expect("6/set-contents", 3)
+	}
+
 	// ---------- 5: every decision is computed afresh ----------
 	checkNoSharedState(c, "5/no-shared-state", func(path string) bool {
 		return strings.HasSuffix(path, "/runner/ptrace/filehandler") || strings.HasSuffix(path, "/runner/ptrace")
@@ -322,6 +372,7 @@ func checkMatcherSkeleton(c *Check) {
 	name := fn.Params[1]
 	// classify every lookup on the set by its key
 	nChildren, nDir, nExact := 0, 0, 0
+	nLookups := 0
 	for _, b := range fn.Blocks {
 		for _, in := range b.Instrs {
 			lk, ok := in.(*ssa.Lookup)
@@ -346,6 +397,13 @@ func checkMatcherSkeleton(c *Check) {
 				if k == name {
 					suffix = "<exact>"
 				}
+			}
+			// membership is the VALUE stored under the key (entries are set to true); a mere "key present" test would
+			// treat an entry that was set to false as a grant
+			if suffix != "" {
+				c.Cond(!lk.CommaOk, "4/matcher-skeleton", fmt.Sprintf("%s:lookup-by-value(%s)#%d", key, suffix, nLookups), p.Pos(lk.Pos()), "the lookup tests the stored value",
+					"the lookup only tests that the key is present (comma-ok form): an entry stored as false counts as covered")
+				nLookups++
 			}
 			// inside the walk, every lookup is about this iteration's name (the loop variable), not the parent that
 			// the end of the iteration computes: 'level == 1' then means "one level below the queried path"
@@ -434,7 +492,7 @@ func checkMatcherSkeleton(c *Check) {
 	}
 	c.Cond(lvlOK, "4/matcher-skeleton", key+":level-counter", pos, "depth counter starts at 0 and steps by 1", "the depth counter does not start at 0 / step by 1")
 	c.Cond(nameOK, "4/matcher-skeleton", key+":walk-up", pos, "each iteration replaces the name by its parent (strict prefix up to the last '/')", "the walk does not move to the parent directory each iteration")
-	c.Expect("4/matcher-skeleton", 10)
+	c.Expect("4/matcher-skeleton", 15)
 }
 
 // strictPrefixHelper: returns path[:LastIndex(path,"/")] or "".
